@@ -453,7 +453,9 @@ ARG_VALUES = ['0', '1', '-7', '9', '40', '10 ** 30', '2.5', '-0.0', '0.1 + 0.2',
               "collections.OrderedDict(a=1, b=2)", "collections.Counter('aab')", "collections.defaultdict(int, k=1)",
               "Pt(1, 2)", "Stack([1, 2])", "[collections.OrderedDict(z=0)]",
               # scalars of a subclass (an IntEnum member, a str/float subclass with its own repr), an int too long to print, a list inside itself
-              'Level.HIGH', '[Level.LOW]', "Tag('x')", 'Ratio(2.5)', '10 ** 5000', 'selfref()']
+              'Level.HIGH', '[Level.LOW]', "Tag('x')", 'Ratio(2.5)', '10 ** 5000', 'selfref()',
+              # an object that cannot be printed (its __repr__ fails): a direct call never asks for its repr
+              'Mute()', '[Mute()]']
 import collections as _collections
 import enum as _enum
 
@@ -468,6 +470,16 @@ class _Ratio(float):
         return 'Ratio(%s)' % float(self)
 
 
+class _Mute:
+    def __repr__(self):
+        raise RuntimeError('this object has no printable form')
+
+    def __eq__(self, other):
+        return isinstance(other, _Mute)
+
+    __hash__ = None
+
+
 def _selfref():
     box = [1]
     box.append(box)
@@ -476,7 +488,7 @@ def _selfref():
 
 #: names the argument sources above may use (evaluated by the harness, not by student code)
 ARG_NAMESPACE = {'collections': _collections, 'Pt': _collections.namedtuple('Pt', 'x y'), 'Stack': type('Stack', (list,), {}),
-                 'Level': _enum.IntEnum('Level', 'LOW HIGH'), 'Tag': _Tag, 'Ratio': _Ratio, 'selfref': _selfref}
+                 'Level': _enum.IntEnum('Level', 'LOW HIGH'), 'Tag': _Tag, 'Ratio': _Ratio, 'selfref': _selfref, 'Mute': _Mute}
 CALLABLES = {  # name -> (min args, max args, accepts kwargs)
     'echo': (1, 1, False), 'pair': (1, 4, True), 'first': (1, 1, False), 'total': (1, 1, False), 'h0': (1, 2, False),
     'fact': (1, 1, False), 'deep': (1, 1, False), 'shadowed': (0, 1, False), 'bump': (0, 1, False), 'describe': (1, 2, False), 'shout': (1, 2, False), 'Acc': (1, 1, False),
